@@ -285,19 +285,19 @@ PROPS['C19'] = dict(
 )
 
 PROPS['C02'] = dict(
-    level='other',
-    technique='Kani bounded contract check of the real GLWE operation wrappers (trait default methods) on a marker module against the column-wise ring operation; Verus proofs of the HAL column operations they delegate to (C09/C08)',
-    level_text='Bounded in shape (N = 2/4, ranks 0..2, sizes 1..2), complete in limb values and in the rotation amount (all i64): add, sub, their in-place forms, negate, copy, rotate, rotate_assign, mul_xp_minus_one equal the ring operation applied column by column with the documented size and rank rule; column-wise equality implies phase equality for every key.',
-    level_note='GGSW variants, shifts (lsh/rsh) and glwe_normalize (incl. cross-radix) are not covered; the HAL operations underneath are proved unbounded in the C09 check.',
-    explanation=BOUNDED_EXPL,
-    units=[K('poulpy-cpu-ref', 'verif_kani::c02', ['c02_glwe_add_sub__ranks_1_1', 'c02_glwe_add_sub__ranks_2_0', 'c02_glwe_add_sub__ranks_0_1', 'c02_glwe_assign_negate_copy__rank1'],
+    level='proof',
+    technique='Verus contracts on the real text of the GLWE operation wrappers (trait default methods of poulpy-core/src/api/operations.rs) against the HAL column contracts that are themselves proved for the reference implementation (units vec_znx_arith / vec_znx_ring, same contract text); Kani bounded contract check of the same wrappers on a marker module as a second, executable reading',
+    level_text='Unbounded (every ring degree, rank, limb count, rotation amount, limb value inside the no-overflow domain): glwe_add_into, glwe_add_assign, glwe_sub, glwe_sub_assign, glwe_sub_negate_assign, glwe_negate, glwe_negate_assign, glwe_copy, glwe_rotate, glwe_rotate_assign, glwe_mul_xp_minus_one(+_assign) apply the exact ring operation column by column with the documented rank rule (missing columns of the lower-rank operand count as zero) and HAL size rule, touch no limb beyond the active size, never panic on an admissible call, and the in-place rotations need exactly glwe_rotate_tmp_bytes of scratch; column-wise equality implies phase equality for every key. Bounded (Kani, N = 2/4, ranks 0..2, sizes 1..2): the same statements checked by executing the real wrappers on symbolic limbs.',
+    level_note='The HAL contracts are proved for the reference backend functions; the one-line delegation Module -> backend -> reference function is syntactic (trusted). GGSW variants, glwe_lsh/rsh (their HAL kernels are only covered by the bounded C08 harnesses) and glwe_normalize are not covered. glwe_negate assigns res.base2k on a by-value view (no effect on the owner): equal radices are a stated precondition.',
+    units=[V('glwe_ops'), V('vec_znx_arith'), V('vec_znx_ring'),
+           K('poulpy-cpu-ref', 'verif_kani::c02', ['c02_glwe_add_sub__ranks_1_1', 'c02_glwe_add_sub__ranks_2_0', 'c02_glwe_add_sub__ranks_0_1', 'c02_glwe_assign_negate_copy__rank1'],
              cls='bounded', timeout=1500, bound='N=2, ranks 0..2, sizes 1..2',
              functions=['GLWEAdd::glwe_add_into/assign', 'GLWESub::glwe_sub/sub_assign', 'GLWENegate::glwe_negate', 'GLWECopy::glwe_copy', 'GLWERotate::glwe_rotate/rotate_assign', 'GLWEMulXpMinusOne::glwe_mul_xp_minus_one']),
            K('poulpy-cpu-ref', 'verif_kani::c02b', ['c02_glwe_sub_negate_assign__ranks_0_1'], cls='bounded', timeout=900, bound='N=2, ranks (0,1)', functions=['GLWESub::glwe_sub_negate_assign']),
-           K('poulpy-cpu-ref', 'verif_kani::c02', ['c02_glwe_rotate_mul_xp__n4_rank1'], cls='bounded', tier='thorough', timeout=1500, bound='N=4, rank 1, every rotation amount in i64'),
-           V('vec_znx_arith'), V('vec_znx_ring')],
-    trusted_base=VERUS_TRUST + [FMT_STUB],
-    assumptions=['no i64 overflow in limb sums (|x| <= 2^61)'],
+           K('poulpy-cpu-ref', 'verif_kani::c02', ['c02_glwe_rotate_mul_xp__n4_rank1'], cls='bounded', tier='thorough', timeout=1500, bound='N=4, rank 1, every rotation amount in i64')],
+    trusted_base=VERUS_TRUST + [FMT_STUB, 'I-NEWTYPE / I-GLWE (vx/prelude/newtypes.rs, glwe.rs): Rank/Base2K/Degree wrappers and the GLWE container restated with their specifications (operator impl bodies external)',
+                  'HAL dispatch: Module<BE>::vec_znx_* forwards to the reference function whose contract is proved (syntactic)'],
+    assumptions=['no i64 overflow in limb sums/differences, no limb equal to i64::MIN where a column is negated or rotated (preconditions)', 'operands and result use the same limb radix (asserted by the code except in glwe_negate / glwe_rotate / glwe_copy / glwe_mul_xp_minus_one)'],
     remainder='GGSW variants, glwe_lsh/rsh, glwe_normalize incl. cross-radix, one unit of the last limb per truncated operand (no truncation occurs in these ops)',
 )
 
